@@ -159,7 +159,7 @@ func (c *Ctx) RunCLIStrace(o CLIOpts, inject ...string) (*CLIResult, []Sys, stri
 	res := c.RunCLI(o)
 	for _, l := range strings.Split(string(res.Stderr), "\n") {
 		// strace's own diagnostics (gopatch never prints this prefix): the trace and the exit status are unusable
-		if strings.HasPrefix(l, "strace: ") && !strings.Contains(l, "exited with") {
+		if strings.HasPrefix(l, "strace: ") && (strings.Contains(l, "ptrace(") || strings.Contains(l, "Cannot ") || strings.Contains(l, "No such process") || strings.Contains(l, "PTRACE_")) {
 			c.Flake("strace failed: " + l)
 			break
 		}
